@@ -251,7 +251,8 @@ first-time caller, not yet written — the empty file) removes `func_code.py` an
 `G_calls` and `G_evict`. (`Memory` users that only *call* cached functions are therefore clearing participants.) -/
 theorem caller_leaves_G_calls :
     ∃ fs, Inv πW true fs ∧ (run (callProc cfgW 3) fs).1 = .ok ⟨0, 3⟩ ∧
-      (runLog (callProc cfgW 3) fs).1.any (fun x => x.1 == .unlink pCode && x.2 == .ok) = true := by
+      (runLog (callProc cfgW 3) fs).1.any
+        (fun x => (match x.1 with | .unlink p _ => p == pCode | _ => false) && x.2 == .ok) = true := by
   refine ⟨(run ((configure cfgW).bind fun _ => ensureFuncDir.bind fun _ => Prog.call (.creat pCode)) FS.empty).2,
     ?_, by decide, by decide⟩
   -- the state is reached from the empty directory by allowed calls
